@@ -282,10 +282,17 @@ func (e *h01Env) mutate(tag string) {
 	case 0: // SetContent anywhere (also out of range)
 		x, y := vsymInt(tag+".x"), vsymInt(tag+".y")
 		vsymAssume(vsymAnd(vsymAnd(x >= -1, x <= e.w), vsymAnd(y >= -1, y <= e.h)))
+		if vsymChoice(tag+".inrange", 2) == 1 {
+			// out of range (any of the ways): the content is irrelevant, keep it simple
+			vsymAssume(!e.sp.in(x, y))
+			e.set(x, y, 'Q', nil, StyleDefault.Bold(true))
+			break
+		}
+		vsymAssume(e.sp.in(x, y))
 		r := h01Rune(tag+".r", vsymParam("classes", 4))
 		var comb []rune
 		if vsymChoice(tag+".comb", 2) == 1 {
-			comb = []rune{[]rune{0x0301, 0x0308}[vsymChoice(tag+".c", 2)]}
+			comb = []rune{[]rune{0x0301, 0x0308}[vsymChoice(tag+".c", vsymParam("reps", 1))]}
 		}
 		e.set(x, y, r, comb, e.menuStyle(tag))
 	case 1: // re-store identical content in cell 0,0 (C13: must not repaint)
@@ -434,7 +441,7 @@ func (e *h01Env) c13(before []h08Cell, stamps []int, styleBefore Style, blkBefor
 // small menu for multi-frame histories: what changes between frames is the
 // combining mark, the hyperlink and the attributes of one cell
 func (e *h01Env) smallMutation(tag string) {
-	x, y := vsymChoice(tag+".x", e.w), vsymChoice(tag+".y", e.h)
+	x, y := vsymChoice(tag+".x", e.w), vsymChoice(tag+".y", vsymParam("framerows", e.h))
 	r := vsymRune(tag + ".r")
 	vsymAssume(vsymAnd(r >= 0x21, r <= 0x7e))
 	if vsymChoice(tag+".keeprune", 2) == 1 {
@@ -452,7 +459,7 @@ func (e *h01Env) smallMutation(tag string) {
 	case 1:
 		st = st.Url("http://x/" + string(rune('a'+vsymChoice(tag+".u", 2))))
 	case 2:
-		st = st.Bold(true).Foreground(PaletteColor(int(vsymByte(tag + ".fg"))))
+		st = st.Bold(true).Foreground(PaletteColor(int(vsymByte(tag+".fg") & 7)))
 	}
 	e.set(x, y, r, comb, st)
 }
